@@ -296,7 +296,8 @@ class MultiAntennaArray(object):
                 bg_x_v = xp.concatenate([antenna.bg_cache[0], self.bg_x.v])[:bg_num_samples]
                 
             antenna.bg_cache[0] = self.bg_x.v[bg_num_samples-antenna.delay:]
-            antenna.x.v += bg_x_v
+            # Not in place: a complex background on a real antenna stream promotes the sum to complex
+            antenna.x.v = antenna.x.v + bg_x_v
             
             if self.num_pols == 2:
                 antenna.y.get_samples(num_samples)
@@ -307,7 +308,7 @@ class MultiAntennaArray(object):
                     bg_y_v = xp.concatenate([antenna.bg_cache[1], self.bg_y.v])[:bg_num_samples]
                     
                 antenna.bg_cache[1] = self.bg_y.v[bg_num_samples-antenna.delay:]
-                antenna.y.v += bg_y_v
+                antenna.y.v = antenna.y.v + bg_y_v
                 
         self.t_start += num_samples * self.dt
         self.start_obs = False
